@@ -129,7 +129,7 @@ Section Cycle.
 
   Lemma srb_same : forall o, same_ok o.
   Proof.
-    induction o as [n|id k items IH|id k|k|id k] using obj_ind2; unfold same_ok;
+    induction o as [n|id k items IH|id k|k|id k|w] using obj_ind2; unfold same_ok;
       intros anc rt p ky mI mS lg HR Hb.
     - cbn. auto.
     - rewrite !srb_node. cbn [imm_backref] in Hb. apply orb_false_iff in Hb as [Hid Hch].
@@ -154,12 +154,13 @@ Section Cycle.
       destruct (t_get mI id); cbn; split; try reflexivity; split; try reflexivity; split; auto.
     - cbn. auto.
     - cbn. auto.
+    - cbn. auto.
   Qed.
 
   Theorem srb_root_same : forall root, imm_backref [] root = false ->
     srb_root impl_blank visit defs root = srb_root spec_blank visit defs root.
   Proof.
-    intros root Hb. unfold srb_root. destruct root as [n|id k items|id k|k|id k]; try reflexivity.
+    intros root Hb. unfold srb_root. destruct root as [n|id k items|id k|k|id k|w]; try reflexivity.
     assert (HR : R [] [] []). { split; [reflexivity|]. split; [constructor|reflexivity]. }
     destruct (srb_same (ONode id k items) [] true [] KNone [] [] [] HR Hb) as [Hv [Hl HR']].
     destruct (srb impl_blank visit defs true [] KNone (ONode id k items) [] []) as [[vI mI] lI].
